@@ -27,12 +27,14 @@ def dispatch (line : String) : String :=
   match splitTabs line with
   | "iter" :: rest => (handleIter rest).getD "BAD-CASE\t0"
   | "itercount" :: rest => (handleIterCount rest).getD "BAD-CASE\t0"
+  | "iterpass" :: rest => (handleIterPass rest).getD "BAD-CASE\t0"
   | "iterstep" :: rest => (handleIterStep rest).getD "BAD-CASE\t0"
   | "recvpause" :: rest => (handleRecvPause rest).getD "BAD-CASE\t0"
   | "recv" :: rest => (handleRecv rest).getD "BAD-CASE\t0"
   | "gen" :: rest => (handleGen rest).getD "BAD-CASE\t0"
   | "netparse" :: rest => (handleNetParse rest).getD "BAD-CASE\t0"
   | "proc" :: rest => (handleProc rest).getD "BAD-CASE\t0"
+  | "e2efill" :: rest => (handleE2EFill rest).getD "BAD-CASE\t0"
   | "fill" :: rest => (handleFill rest).getD "BAD-CASE\t0"
   | "livechain" :: rest => (handleLiveChain rest).getD "BAD-CASE\t0"
   | "live" :: rest => (handleLive rest).getD "BAD-CASE\t0"
@@ -63,6 +65,8 @@ def dispatch (line : String) : String :=
   | "limwrap" :: rest => (handleLimWrap rest).getD "BAD-CASE\t0"
   | "limwire" :: rest => (Driver.E2E.handleLimWire rest).getD "BAD-CASE\t0"
   | "e2earp" :: rest => (Driver.E2E.handleE2EArp rest).getD "BAD-CASE\t0"
+  | "e2esigint" :: rest => (Driver.E2E.handleE2ESigint rest).getD "BAD-CASE\t0"
+  | "e2ejson" :: rest => (handleE2EJson rest).getD "BAD-CASE\t0"
   | "e2edelay" :: rest => (Driver.E2E.handleE2EDelay rest).getD "BAD-CASE\t0"
   | "limrt" :: rest => (handleLimRT rest).getD "BAD-CASE\t0"
   | "engine" :: rest => (handleEngine rest).getD "BAD-CASE\t0"
